@@ -1191,6 +1191,24 @@ def r_query(w, op):
         l = P["orders"][0] + P["orders"][1]
         m = (P["orders"][2] % (2 * l + 1)) - l
         args += [["angmom", l, "scalar"], ["mag", m, "scalar"]]
+    elif fn_name in ("expansion_coeff", "harmonic_norm", "shift_factor"):
+        l = P["orders"][0] + P["orders"][1]
+        m = (P["orders"][2] % (2 * l + 1)) - l
+        if fn_name == "shift_factor":
+            args.append(["mag", m, "scalar"])
+        elif fn_name == "harmonic_norm":
+            args += [["angmom", l, "scalar"], ["mag", m, "scalar"]]
+        else:
+            i, j, k = P["orders_one"]
+            args += [["angmom", l, "scalar"], ["mag", m, "scalar"], ["i", i, "scalar"], ["j", j, "scalar"],
+                     ["k", k, "scalar"]]
+    elif fn_name == "permutation_libcint":
+        cands = [e.obj for e in w.shells if hasattr(e.obj, "permutation_libcint")]
+        if not cands:
+            return Bound("query", "permutation_libcint", skip="no iodata shell")
+        sh = cands[d[1] % len(cands)]
+        b = Bound("query", "IODataShell.permutation_libcint", call=sh.permutation_libcint, args=[sh])
+        return b
     elif fn_name == "factorial2":
         args.append(["n", int_array("orders", [2 * x - 1 for x in P["orders"]], 1), "orders"])
     elif fn_name == "is_integral_screened":
